@@ -185,6 +185,14 @@ func (g *G) check(node string, svc *structs.NodeService, peer string) *structs.H
 	if r.Chance(30) {
 		c.Output = core.Pick(r, []string{"ok", "bad"})
 	}
+	if g.Focus && g.peek != nil && peer == "" && r.Chance(30) {
+		// update an EXISTING check of that node (status changes incl. critical are what ends sessions)
+		if _, cs, err := g.peek.NodeChecks(nil, node, nil, ""); err == nil && len(cs) > 0 {
+			e := cs[r.Intn(len(cs))]
+			c.CheckID, c.ServiceID, c.ServiceName, c.Type = e.CheckID, e.ServiceID, e.ServiceName, e.Type
+			c.Status = core.Pick(r, []string{api.HealthCritical, api.HealthCritical, api.HealthWarning, api.HealthPassing})
+		}
+	}
 	return c
 }
 
